@@ -601,3 +601,19 @@ pub mod small {
         sophia_api::test_dataset_impl!(light_dataset, LightDataset);
     }
 }
+
+#[cfg(feature = "verif_hooks")]
+impl<TI: TermIndex> GenericLightDataset<TI> {
+    /// Verification hook (feature `verif_hooks` only): read access to the term index.
+    pub fn verif_terms(&self) -> &TI {
+        &self.terms
+    }
+}
+
+#[cfg(feature = "verif_hooks")]
+impl<TI: GraphNameIndex> GenericFastDataset<TI> {
+    /// Verification hook (feature `verif_hooks` only): read access to the term index.
+    pub fn verif_terms(&self) -> &TI {
+        &self.terms
+    }
+}
